@@ -249,6 +249,57 @@ def observe(ctx, where, state, snap, start_coords):
                                      f"back in {snap['psys']}: coordinate {got}, originally {want}"))
 
 
+def symbolic_pass(ctx, start, trie, max_depth=2):
+    """The same conversions with SYMBOLIC coordinates: convert first, plug the numbers of the point in afterwards;
+    the result must describe the same Cartesian position / components."""
+    import sympy as sp
+    from symplyphysics.core.experimental.points import AppliedPoint
+    from symplyphysics.core.experimental.coordinate_systems import convert_point, convert_vector
+    syms = sp.symbols("s1:4", real=True)
+    values = dict(zip(syms, coords_of(start["pos"], start["psys"])))
+    sysm = _init()
+    P = AppliedPoint(list(syms), sysm[start["psys"]])
+    fr = frame(start["vsys"], list(syms))
+    V = sum((base * sum(sp.Integer(v) * sp.sympify(x) for v, x in zip(start["vec"], e))
+             for e, base in zip(fr, P.system.base_vectors(P))), sp.S.Zero)
+
+    def numeric(point):
+        return [sp.sympify(c).subs(values) for c in point.coordinates.values()]
+
+    def walk(state, trie, depth):
+        P, V, Q = state
+        for (act, to), node in trie.items():
+            where = (node["idx"], node["depth"] + 1)
+            snap = node["step"]
+            try:
+                if act == "point":
+                    new = (convert_point(P, sysm[to]), V, Q)
+                else:
+                    new = (P, convert_vector(V, Q, sysm[to]), convert_point(Q, sysm[to]))
+            except HardTimeout:
+                raise
+            except Exception as e:  # pylint: disable=broad-except
+                ctx.problems.append((where, f"symbolic convert {act} to {to}", f"conversion of a symbolic point raised {type(e).__name__}: {str(e)[:100]}"))
+                continue
+            before = len(ctx.problems)
+            for name, pt, kind in (("point", new[0], snap["psys"]), ("attachment point", new[2], snap["vsys"])):
+                for i, (c, w) in enumerate(zip(project_point(kind, numeric(pt)), snap["pos"])):
+                    ctx.cmp(where, f"symbolic {name} position[{i}]", c, w,
+                            lambda: f"{kind} point converted with symbolic coordinates {list(pt.coordinates.values())}, numbers {list(values.values())} plugged in afterwards, projects to")
+            Qn = new[2]
+            frame_n = frame(snap["vsys"], numeric(Qn))
+            try:
+                cartv = eval_vector(sp.sympify(new[1]).subs(values), dict(zip(Qn.system.base_vectors(Qn), frame_n)))
+                for i, (c, w) in enumerate(zip(cartv, snap["vec"])):
+                    ctx.cmp(where, f"symbolic vector component[{i}]", c, w, lambda: f"vector converted at a symbolic point {new[1]} projects to")
+            except Unevaluable:
+                ctx.problems.append((where, "symbolic vector basis", f"the vector converted at a symbolic point contains foreign vectors: {new[1]}"))
+            if len(ctx.problems) == before and depth + 1 < max_depth:
+                walk(new, node["next"], depth + 1)
+
+    walk((P, V, P), trie, 0)
+
+
 def replay_group(group):
     """group = dict(start, paths=[(idx, path)], gid)"""
     _init()
@@ -303,6 +354,12 @@ def replay_group(group):
 
     if not ctx.problems:
         walk((P, V, Q), trie)
+    if not ctx.problems:
+        try:
+            with time_limit(120):
+                symbolic_pass(ctx, start, trie)
+        except HardTimeout:
+            ctx.note("symbolic point pass timed out (SymPy)")
     return group["gid"], ctx.problems, ctx.outside, ctx.steps
 
 
@@ -370,6 +427,23 @@ def _record_instance(rid, pos, inst):
                         if sp.expand(rest) != 0:
                             problems.append((f"T[{a}][{b}]", f"image of base vector {i + 1} is not a combination of the new base vectors: {e}"))
                     rec["T"][a][b] = mat
+                # express_base_scalars(A, B) is a substitution FOR A's base scalars: its keys are exactly A's base
+                # scalars (in order), and substituting A -> B -> A is the identity on each of them at the point
+                for b in SYSTEMS:
+                    if a == b:
+                        continue
+                    fwd = express_base_scalars(sy[a], sy[b])
+                    if list(fwd.keys()) != list(sy[a].base_scalars):
+                        problems.append((f"express_base_scalars({a}, {b}) keys",
+                                         f"keys {list(fwd.keys())} are not the base scalars {list(sy[a].base_scalars)} of the {a} system"))
+                        continue
+                    back = express_base_scalars(sy[b], sy[a])
+                    for q in sy[a].base_scalars:
+                        trip = sp.sympify(q).subs(fwd).subs(back).subs(pts[a].coordinates)
+                        diff = sp.N(trip - pts[a].coordinates[q], 40)
+                        if not (diff.is_number and abs(diff) < sp.Float(10) ** -30):
+                            problems.append((f"express_base_scalars {a}->{b}->{a}",
+                                             f"substituting the mappings by key takes {q} to {trip} at {list(pos)}, not back to {pts[a].coordinates[q]}"))
                 # position as a function of this system's scalars, from the real scalar tables
                 old_cart = sy["cart"]
                 new_sys, new_pt = (sy[a], pts[a]) if a != "cart" else (other["cart"], pts2["cart"])
@@ -390,6 +464,59 @@ def _record_instance(rid, pos, inst):
         rec["J"][a] = [[rat(x) for x in row] for row in rec["J"][a]]
         rec["h"][a] = [rat(x) for x in rec["h"][a]]
     return rid, rec, problems, notes
+
+
+def numeric_chain(args):
+    """Chained convert_vector / convert_point at a NON-Pythagorean point (coordinates that simplify() rewrites):
+    after every link the vector must consist of base vectors of the current system at the current point only, and
+    position and components must be unchanged (compared numerically to 30 digits: outside TLC's exact fragment)."""
+    import sympy as sp
+    from symplyphysics.core.experimental.points import AppliedPoint
+    from symplyphysics.core.experimental.coordinate_systems import convert_point, convert_vector
+    name, kind, coords, coeffs, chain = args
+    sysm = _init()
+    problems = []
+    try:
+        with time_limit(120):
+            coords = [sp.sympify(c) for c in coords]
+            Q = AppliedPoint(coords, sysm[kind])
+            V = sum((b * sp.sympify(c) for b, c in zip(Q.system.base_vectors(Q), coeffs)), sp.S.Zero)
+            want_pos = [sp.N(c, 50) for c in project_point(kind, coords)]
+            want_vec = [sp.N(c, 50) for c in eval_vector(V, dict(zip(Q.system.base_vectors(Q), frame(kind, coords))))]
+            tol = sp.Float(10) ** -30
+            done = []
+            for to in chain:
+                V, Q = convert_vector(V, Q, sysm[to]), convert_point(Q, sysm[to])
+                done.append(to)
+                cur = list(Q.coordinates.values())
+                got_pos = [sp.N(c, 50) for c in project_point(to, cur)]
+                if not all(g.is_number and abs(g - w) < tol for g, w in zip(got_pos, want_pos)):
+                    problems.append((f"position after {done}", f"Cartesian position {got_pos[:3]}, originally {want_pos}"))
+                    break
+                try:
+                    got = [sp.N(c, 50) for c in eval_vector(V, dict(zip(Q.system.base_vectors(Q), frame(to, cur))))]
+                except Unevaluable:
+                    problems.append((f"vector basis after {done}", f"the vector contains vectors that are not {to} base vectors at its point: {V}"))
+                    break
+                if not all(g.is_number and abs(g - w) < tol for g, w in zip(got, want_vec)):
+                    problems.append((f"vector after {done}", f"Cartesian components {got}, originally {want_vec}"))
+                    break
+    except HardTimeout:
+        return name, chain, [], True
+    except Exception as e:  # pylint: disable=broad-except
+        problems.append((f"chain {chain}", f"raised {type(e).__name__}: {str(e)[:120]}"))
+    return name, chain, problems, False
+
+
+def numeric_chain_cases():
+    import sympy as sp
+    from itertools import product
+    starts = [("sph(2, pi/5, pi/7)", "sph", [2, sp.pi / 5, sp.pi / 7]),
+              ("cart(2cos1, 2sin1, 1)", "cart", [2 * sp.cos(1), 2 * sp.sin(1), 1]),
+              ("cyl(3, 5pi/7, -1)", "cyl", [3, 5 * sp.pi / 7, -1]),
+              ("cart(-1, 2, 3)", "cart", [-1, 2, 3])]
+    return [(name, kind, coords, (1, 2, -3), list(chain)) for name, kind, coords in starts
+            for n in (2, 3) for chain in product(SYSTEMS, repeat=n)]
 
 
 def validate_matrices(run, sc, recs, label="real"):
@@ -487,6 +614,17 @@ def main() -> int:
                         key = f"pos={st['pos']} vec={st['form']}{st['opa']} start={st['psys']} path=[{_acts(path[:stepno])}]: {clause}"
                         report(run, key, what, {"kind": "path", "start": st, "path": path[:max(stepno, 0)]})
                 run.coverage.setdefault("real_steps_executed", {})[f"paths{n}"] = steps
+            # chained conversions at non-Pythagorean points (numeric)
+            chains = 0
+            for name, chain, problems, timed_out in pmap(pool, numeric_chain, numeric_chain_cases(), chunk=4):
+                chains += 1
+                run.count(f"chain {name} {chain}")
+                if timed_out:
+                    run.outside("numeric chain timed out (SymPy)")
+                for clause, what in problems:
+                    report(run, f"chain from {name}: {clause}", what, {"kind": "chain", "name": name, "chain": chain})
+            run.traces += chains
+            run.outside("chained conversions at non-Pythagorean points compared numerically (30 digits), not by TLC", chains)
             # code -> spec
             recs, by_id = [], {}
             for triple in pmap(pool, record_point, list(enumerate(t["matrix_points"])), chunk=2):
@@ -550,7 +688,10 @@ def replay_file(path: str) -> int:
     c = data["case"]
     _init()
     bad = []
-    if c["kind"] == "path":
+    if c["kind"] == "chain":
+        case = next(x for x in numeric_chain_cases() if x[0] == c["name"] and x[4] == c["chain"])
+        bad = [f"{clause}: {what}" for clause, what in numeric_chain(case)[2]]
+    elif c["kind"] == "path":
         _, problems, _, _ = replay_group(dict(start=c["start"], paths=[(0, c["path"])], gid=0))
         bad = [f"{clause}: {what}" for _, clause, what in problems]
     else:
